@@ -42,6 +42,7 @@ def run(ctx):
     _utc_forced(ctx)
     _tzid_forward(ctx)
     _tzp_contract(ctx)
+    _provider_contract(ctx)
     from .. import codecmodel
     codecmodel.report(ctx, "C11/OWN", codecmodel.explore_params_ownership, codecmodel.OWN_LAWS,
                       m.cls("prop.vDatetime").loc(), 10)
@@ -198,6 +199,47 @@ def _utc_forced(ctx):
 
 
 # ---------------------------------------------------------------------------
+def _provider_contract(ctx):
+    """One level below TZP: each provider's localize / localize_utc interpreted on top of the
+    library's own operation (pytz: tz.localize(dt) / astimezone; zoneinfo: replace(tzinfo=) /
+    astimezone).  A provider that computes offsets itself instead of asking the library leaves
+    this model (exit 2, not decided) - it is never passed silently."""
+    m = ctx.model
+    for cq, prov in (("timezone.pytz.PYTZ", "pytz"), ("timezone.zoneinfo.ZONEINFO", "zoneinfo")):
+        ci = m.cls(cq)
+        for meth in ("localize", "localize_utc"):
+            f = m.lookup_method(ci, meth)
+            if f is None:
+                raise AnalysisError(f"anchor vanished: {ci.name}.{meth}")
+            for kind in ("naive", "utc", "zoned"):
+                if meth == "localize" and kind != "naive":
+                    continue
+                it = Interp(m, provider=prov)
+                self_ = it.instantiate(ci, [], {}) if m.lookup_method(ci, "__init__") is None else Obj(ci)
+                if "utc" not in self_.attrs:
+                    self_.attrs["utc"] = TZ("utc", "UTC", prov)
+                x = DT(kind, 4, {"t": 1}, ZONE if kind == "zoned" else None)
+                label = f"{ci.name}.{meth}(<{kind}>)"
+                try:
+                    args = [x] if meth == "localize_utc" else [x, TZ("zone", ZONE, prov)]
+                    got = it.call(Bound(Closure(f), self_), args, {})
+                except AbsRaise as e:
+                    ctx.fail("C11/TZP-CONTRACT", label, f"{label} raises {e.cls_name}", f.loc())
+                    continue
+                except Unsupported as e:
+                    raise AnalysisError(f"{label} leaves the abstract interface (the provider does "
+                                        f"something other than asking the tz library): {e}")
+                if meth == "localize_utc":
+                    good = isinstance(got, DT) and got.kind == "utc" and got.rank == 4 and got.tag is None
+                    want = "a UTC datetime denoting the same instant"
+                else:
+                    good = isinstance(got, DT) and got.kind == "zoned" and got.zone == ZONE and \
+                        got.term == x.term and got.tag is None
+                    want = f"the same wall time placed in {ZONE} by the library"
+                ctx.check(good, "C11/TZP-CONTRACT", label, f"{label} returns {got!r}; expected {want}",
+                          f.loc(), detail=want)
+
+
 def _tzp_contract(ctx):
     """The analyser treats TZP.localize_utc / TZP.localize as contracts (a UTC
     datetime denoting the same instant; the wall time placed in the zone).  Here
